@@ -81,6 +81,9 @@ fn binary_cases() -> &'static Vec<String> {
                 }
             }
         }
+        for s in super::long::huge(Ev::I64) {
+            v.push(s);
+        }
         // the same values spelled with redundant leading zeros (digit counters, fixed buffers): the value decides, not the text
         for z in [1usize, 2, 17, 18, 19, 20, 21, 30, 63, 64, 100, 200] {
             for d in ["0", "7", "42", "9223372036854775807", "9223372036854775808", "3037000500"] {
